@@ -170,6 +170,9 @@ func checkChain(c chainCase) (o pbt.Outcome, err error) {
 	if hostile {
 		o.Class("a name of the hostile dictionary")
 	}
+	if caseVariantNames(c.Rows) {
+		o.Class("two names differing by case only")
+	}
 	for _, r := range c.Rows {
 		if len(r.Name) > 25 {
 			o.Class("a name longer than 25 characters")
@@ -258,7 +261,7 @@ func checkBoot(c bootCase) (o pbt.Outcome, err error) {
 	}
 	nfiles := 0
 	for name := range sb.Files {
-		if !strings.HasSuffix(name, " [decompressed]") {
+		if !strings.HasSuffix(name, "]") {
 			nfiles++
 		}
 	}
